@@ -215,33 +215,58 @@ def observers(ctx):
     ctx.ob("R11.2", "RunningState.append copies the value into its own buffer column", ok, detail=stores, where=ra.fq,
            construct="RunningState.append", message=f"append does {stores}", consequence="the record buffer aliases solver arrays")
     fu = repo.func(SOLVER, "TDGLSolver.update")
-    # after the screening loop: psi / mu / currents are not modified in place
-    loops = [n for n in own_nodes(fu.node) if isinstance(n, (ast.For, ast.While)) and any(
-        isinstance(c, ast.Call) and norm(c.func) == "self.adaptive_euler_step" for c in ast.walk(n))]
-    tail = fu.node.body[fu.node.body.index(loops[0]) + 1:] if loops and loops[0] in fu.node.body else []
-    from .c10 import update_roles
-    fields = ("psi", "mu", "supercurrent", "normal_current", update_roles(fu.node)[0])       # keyword parameters + the screening iterate
-    muts = []
-    for s in tail:
-        for n in ast.walk(s):
-            if isinstance(n, ast.Subscript) and isinstance(n.ctx, ast.Store) and isinstance(n.value, ast.Name) \
-                    and n.value.id in fields:
-                muts.append(f"L{n.lineno}: {norm(n)}")
-            if isinstance(n, ast.AugAssign) and isinstance(n.target, ast.Name) and n.target.id in fields:
-                muts.append(f"L{n.lineno}: {norm(n)}")
-    ctx.ob("R11.2", "the probe readout / bookkeeping tail of update() does not modify psi, mu or the currents", not muts and bool(tail),
-           detail=muts, where=fu.fq, construct="tail of update()", message=f"fields modified after the solve: {muts}",
+    # on the traces of update() (pvs/update_trace.py): no array is written element by element, and the state returned with probes
+    # is the state returned without them
+    from ..update_trace import all_traces
+    from ..smallstep import Opaque as SO, render
+    traces = all_traces(repo)
+    muts = sorted({repr(e) for t in traces for e in t.events if e.kind == "elemstore"})
+    by = {}
+    for t in traces:
+        sc = t.scenario
+        key = tuple(v for k, v in sorted(sc.items()) if k != "probes")
+        by.setdefault(key, {})[sc["probes"]] = (t.outcome[0], render(t.outcome[1]))
+    differs = [f"{k}: without probes {v.get(False)}, with probes {v.get(True)}" for k, v in by.items() if v.get(False) != v.get(True)]
+    ctx.ob("R11.2", "the probe readout / bookkeeping tail of update() does not modify psi, mu or the currents", not muts and not differs and len(by) >= 20,
+           detail={"element_stores": muts[:4], "result_depends_on_probes": differs[:2]}, where=fu.fq, construct="tail of update()",
+           message=f"fields modified after the solve: {muts[:2]} {differs[:1]}",
            consequence="the presence of voltage probes changes the trajectory")
-    # R11.3
-    uses = []
-    for n in own_nodes(fu.node):
-        if isinstance(n, ast.Attribute) and n.attr == "probe_points":
-            par = parent_map(fu.node)[id(n)][0]
-            ok = (isinstance(par, ast.Subscript) and par.slice is n and isinstance(par.ctx, ast.Load)) or \
-                 (isinstance(par, ast.Compare) and any(isinstance(c, ast.Constant) and c.value is None for c in par.comparators))
-            uses.append((f"L{n.lineno}: {norm(par)[:60]}", ok))
-    ctx.ob("R11.3", "self.probe_points is used only as a load index and in `is not None` tests", bool(uses) and all(o for _, o in uses),
-           detail=[u for u, _ in uses], where=fu.fq, construct="uses of probe_points", message=f"{[u for u, o in uses if not o]}",
+    # R11.3: the probe indices appear only as the index of a read
+    misuse = []
+    n_use = [0]
+
+    def walk(v, where, as_index=False):
+        if isinstance(v, SO):
+            if v.text == "self.probe_points":
+                n_use[0] += 1
+                if not as_index:
+                    misuse.append(where)
+                return
+            if v.parts:
+                if v.parts[0] == "index":
+                    walk(v.parts[1], where)
+                    walk(v.parts[2], where, as_index=True)
+                    return
+                for x in v.parts[1:]:
+                    walk(x, where)
+        elif isinstance(v, (list, tuple)):
+            for x in v:
+                walk(x, where)
+        elif isinstance(v, dict):
+            for x in v.values():
+                walk(x, where)
+    for t in traces:
+        for e in t.events:
+            if e.kind == "elemstore":
+                walk(e.args, repr(e)[:80])              # an element store indexed by the probe points is a write through them
+            else:
+                walk(e.args, repr(e)[:80])
+                walk(e.kwargs, repr(e)[:80])
+            walk(e.value, repr(e)[:80])
+        walk(t.outcome[1], "the returned state")
+    misuse = sorted(set(misuse))
+    ctx.ob("R11.3", "self.probe_points is used only as a load index and in `is not None` tests", n_use[0] > 0 and not misuse,
+           detail=misuse[:4], where=fu.fq, construct="uses of probe_points", message=f"{misuse[:3]}",
            consequence="probes write into the fields they observe")
 
 
